@@ -406,11 +406,11 @@ def gen_c22(seed, size="quick"):
             sib_cols = [("y", "number"), ("z", "number")]
         elif shape == 5:
             k = r.randrange(0, 6)  # outermost range index scan
-            body = "e1(x,y), x > %d, e2(y,_,w)" % k
+            body = "e1(x,y), x > %d, e2(y,v,w)" % k
             head_cols = [("id", "number"), ("x", "number"), ("w", "number")]
             head = "%s(autoinc(),x,w)"
-            sib = "%s(x,y,w)"
-            sib_cols = [("x", "number"), ("y", "number"), ("w", "number")]
+            sib = "%s(x,y,v,w)"  # the sibling lists every body instantiation
+            sib_cols = [("x", "number"), ("y", "number"), ("v", "number"), ("w", "number")]
         elif shape == 6:
             # the counter value is used twice in one head and feeds a later stratum
             body = "e1(x,y), x != y"
